@@ -1,6 +1,7 @@
 package vc
 
 import (
+	"os"
 	"regexp"
 	"crypto/sha256"
 	"fmt"
@@ -291,11 +292,29 @@ func VerifyFunc(p *Prog, fn *ssa.Function, opt Options, so *SolveOpts) *FuncResu
 			cso.TimeoutMs = 1000
 		}
 		solveIncremental(e.lines, cands, &cso)
+		// a quantified candidate on which the first solver gives up at once (z3 5.x: "incomplete (theory array)"
+		// on lambda stores) gets a second chance on the other z3 before it is dropped
+		retried := 0
+		for _, o := range cands {
+			if o.Status != "discharged" && !disabled[o.Cand] && len(Solvers) > 1 && retried < 8 && (strings.Contains(o.Cand, ":keeps-prefix") || strings.Contains(o.Cand, ":own")) {
+				retried++
+				r := Race(Standalone(e.lines, o, false, ""), 3*time.Second, Solvers[1:2])
+				if os.Getenv("SLIPVC_CANDDUMP") != "" {
+					fmt.Fprintf(os.Stderr, "candidate retry r%d %s %s: was %s, %s says %s\n", round, o.Kind, o.Cand, o.Status, r.Solver, r.Status)
+				}
+				if r.Status == "unsat" {
+					o.Status, o.Solver, o.Secs = "discharged", r.Solver, r.Secs
+				}
+			}
+		}
 		dropped := false
 		for _, o := range cands {
 			if o.Status != "discharged" && !disabled[o.Cand] {
 				disabled[o.Cand] = true
 				dropped = true
+				if d := os.Getenv("SLIPVC_CANDDUMP"); d != "" {
+					DumpScript(d, fmt.Sprintf("r%d_%s_%s", round, o.Kind, o.Cand), Standalone(e.lines, o, true, ""))
+				}
 			}
 		}
 		if !dropped {
